@@ -15,7 +15,20 @@ def main(d):
     try:
         inp = scratch.path("in.ndjson")
         open(inp, "w").write(script)
-        if kind == "me":
+        if kind == "keypath":
+            import pool
+            b = pool.build_pool_harness(scratch)
+            out = scratch.path("out.ndjson")
+            rc, o = vlib.run_test_binary(b, "TestVerifKeyPath", {"VERIF_IN": inp, "VERIF_OUT": out})
+            verdict = vlib.validate_chunks(scratch, out, "KeyPathTrace", lambda ln: True, par=1, tag="replay")
+        elif kind in ("prober", "checksum", "race", "config"):
+            print("replay of a %s finding: the recorded vector / report is in %s; re-run `./check %s quick` (the vector space is enumerated "
+                  "deterministically, the same vector is executed again)" % (kind, d, pid))
+            import subprocess
+            r = subprocess.run([os.path.join(vlib.VERIF, "check"), pid, "quick"], stdout=subprocess.PIPE, stderr=subprocess.STDOUT, text=True)
+            print(r.stdout[-1500:])
+            return r.returncode
+        elif kind == "me":
             import check_me
             b = check_me.build(scratch)
             out = scratch.path("out.ndjson")
